@@ -49,7 +49,7 @@ def delVarValue : Exprs :=
 
 def delVarValueEv : Value := (.obj .nil)
 
-/-- D_del_typing (what is left of it: `Kind::remove` outside the C19 theorem, here C19 `D_remove_shift`)
+/-- D_del_typing through C19 `D_remove_shift` (fixed, ff94317)
 ```
 x = [1, "s", true]
 del(x[0])
@@ -60,7 +60,7 @@ def delShift : Exprs :=
 
 def delShiftEv : Value := (.obj .nil)
 
-/-- D_del_typing: an element the shifted kind misplaces
+/-- D_del_typing through C19 `D_remove_shift` (fixed, ff94317): an element the shifted kind misplaced
 ```
 x = [1, "s", 2]
 del(x[0])
@@ -70,6 +70,42 @@ def delShiftAdd : Exprs :=
   (.cons (.asg (.internal "x" []) (.arr (.cons (.lit (.int 1)) (.cons (.lit (.bytes [115])) (.cons (.lit (.int 2)) .nil))))) (.cons (.delVar "x" [.index 0] false .noop) (.cons (.op .add (.qvar "x" [.index 2]) (.lit (.int 1))) .nil)))
 
 def delShiftAddEv : Value := (.obj .nil)
+
+/-- D_del_typing (what is left of it: `Kind::remove` outside the proved paths, here C19
+    `D_minlen_counts_optional`: a negative index resolved against a length that counts an optional element)
+```
+x = [1]
+if .a == 1 { x[1] = 2 }
+del(x[-1])
+x
+``` -/
+def delNeg : Exprs :=
+  (.cons (.asg (.internal "x" []) (.arr (.cons (.lit (.int 1)) .nil))) (.cons (.ifte (.cons (.op .eq (.qext false [.field [97]]) (.lit (.int 1))) .nil) (.cons (.asg (.internal "x" [.index 1]) (.lit (.int 2))) .nil) false .nil) (.cons (.delVar "x" [.index (-1)] false .noop) (.cons (.var "x") .nil))))
+
+def delNegEv : Value := (.obj .nil)
+
+/-- D_del_typing: the element the kind still requires
+```
+x = [1]
+if .a == 1 { x[1] = 2 }
+del(x[-1])
+x[0] + 1
+``` -/
+def delNegAdd : Exprs :=
+  (.cons (.asg (.internal "x" []) (.arr (.cons (.lit (.int 1)) .nil))) (.cons (.ifte (.cons (.op .eq (.qext false [.field [97]]) (.lit (.int 1))) .nil) (.cons (.asg (.internal "x" [.index 1]) (.lit (.int 2))) .nil) false .nil) (.cons (.delVar "x" [.index (-1)] false .noop) (.cons (.op .add (.qvar "x" [.index 0]) (.lit (.int 1))) .nil))))
+
+def delNegAddEv : Value := (.obj .nil)
+
+/-- D_ctor_poststate (what is left of it: `Abort::new` / `Return::new` / function arguments still check
+    in the state after the operand was compiled)
+```
+x = 1
+abort { y = x; x = "s"; y }
+``` -/
+def ctorAbort : Exprs :=
+  (.cons (.asg (.internal "x" []) (.lit (.int 1))) (.cons (.abort true (.blk (.cons (.asg (.internal "y" []) (.var "x")) (.cons (.asg (.internal "x" []) (.lit (.bytes [115]))) (.cons (.var "y") .nil))))) .nil))
+
+def ctorAbortEv : Value := (.obj .nil)
 
 /-- D_short_circuit_defines_var
 ```
@@ -239,7 +275,7 @@ if .a == 1 { x = -0.0 }
 def signedZeroPrefix : Exprs :=
   (.cons (.asg (.internal "x" []) (.lit (.float 0))) (.cons (.ifte (.cons (.op .eq (.qext false [.field [97]]) (.lit (.int 1))) .nil) (.cons (.asg (.internal "x" []) (.lit (.float 9223372036854775808))) .nil) false .nil) .nil))
 
-/-- D_ctor_poststate: the predicate is checked in the state after it was compiled
+/-- D_ctor_poststate (fixed, d43fc03): the predicate was checked in the state after it was compiled
 ```
 x = "s"
 if { y = x; x = true; y } { 1 } else { 2 }
@@ -265,13 +301,21 @@ theorem fixed_del_value :
   decide
 
 set_option maxRecDepth 100000 in
-/-- `D_del_typing` (remaining): `del(x[0])` on `[1, "s", true]` leaves `["s", true]`; `Kind::remove` shifts
-    the known indices wrongly (C19 `D_remove_shift`: `{0: bytes, 2: boolean}`), so the variable is outside
-    its re-inserted type. The side condition `delPathOk` excludes it. -/
+/-- `D_del_typing` (remaining): with `.a ≠ 1`, `del(x[-1])` on `[1]` leaves `[]`; the type of `x` is
+    `{0: integer, 1: integer or undefined}`, `Kind::remove` resolves `-1` against a length that counts the
+    optional element (C19 `D_minlen_counts_optional`) and keeps requiring index 0. The side condition
+    `delPathOk` excludes it. -/
 theorem witness_del_value :
+    outcome delNeg delNegEv = .ok (.arr .nil) ∧ memR (.arr .nil) (resultKind delNeg) = false ∧
+    safeSeq delNeg T0 = false := by
+  decide
+
+set_option maxRecDepth 100000 in
+/-- fixed (`D_del_typing` through C19 `D_remove_shift`; ff94317): `del(x[0])` on `[1, "s", true]` leaves
+    `["s", true]`; `remove_shift` moved only one element (`{0: bytes, 2: boolean}`), now every later one -/
+theorem fixed_del_shift :
     outcome delShift delShiftEv = .ok (.arr (.cons (.bytes [115]) (.cons (.bool true) .nil))) ∧
-    memR (.arr (.cons (.bytes [115]) (.cons (.bool true) .nil))) (resultKind delShift) = false ∧
-    safeSeq delShift T0 = false := by
+    memR (.arr (.cons (.bytes [115]) (.cons (.bool true) .nil))) (resultKind delShift) = true := by
   decide
 
 set_option maxRecDepth 100000 in
